@@ -121,45 +121,6 @@ Proof.
   - cbn [dtab dlevel]. rewrite dmem_dnext. apply dstep_ext. exact IH.
 Qed.
 
-Definition dstable (tb : dtable) : bool :=
-  forallb (fun id => subset (dget (dnext tb) id) (dget tb id)) (seq 0 (length st)).
-
-Lemma dstable_prefix tb : dstable tb = true -> forall id t, dstep (dmem tb) id t -> dmem tb id t.
-Proof.
-  intros H id t Hs. unfold dstable in H. rewrite forallb_forall in H.
-  assert (Hid : id < length st).
-  { unfold dstep in Hs. destruct (nth_error st id) eqn:E; [|contradiction]. apply nth_error_Some. congruence. }
-  specialize (H id ltac:(apply in_seq; lia)). rewrite subset_spec in H. apply H. now apply dmem_dnext.
-Qed.
-
-Fixpoint dsaturate (fuel : nat) (tb : dtable) : option dtable :=
-  if dstable tb then Some tb else
-  match fuel with 0 => None | S f => dsaturate f (dnext tb) end.
-
-Lemma dsaturate_tab fuel : forall n tb', dsaturate fuel (dtab n) = Some tb' ->
-  exists m, tb' = dtab m /\ dstable tb' = true.
-Proof.
-  induction fuel as [|f IH]; intros n tb' H; cbn [dsaturate] in H.
-  - destruct (dstable (dtab n)) eqn:E; [|discriminate]. injection H as <-. eauto.
-  - destruct (dstable (dtab n)) eqn:E.
-    + injection H as <-. eauto.
-    + apply (IH (S n)). exact H.
-Qed.
-
-Definition denote (fuel : nat) (root : nat) : option (list tree) :=
-  match dsaturate fuel (dtab 0) with
-  | Some tb => Some (dget tb root)
-  | None => None
-  end.
-
-Theorem denote_spec fuel root L : denote fuel root = Some L -> forall t, In t L <-> denotes root t.
-Proof.
-  unfold denote. destruct (dsaturate fuel (dtab 0)) as [tb|] eqn:E; [|discriminate].
-  intros H t; injection H as <-. destruct (dsaturate_tab _ 0 _ E) as (m & -> & Hst). split.
-  - intros Hm. exists m. now apply dtab_level.
-  - intros (n & Hn). exact (dprefix_contains_levels (dmem (dtab m)) (dstable_prefix _ Hst) n root t Hn).
-Qed.
-
 (* ---------- shape of the DAG ---------- *)
 Definition succs (nd : dnode) : list nat :=
   match nd with
@@ -189,6 +150,83 @@ Proof.
     rewrite (map_nth (fun nd => forallb (fun s => nth s (gtab n) false) (succs nd))) in H.
     rewrite (nth_error_nth _ _ _ Hnd) in H. rewrite forallb_forall in H.
     specialize (IH b (H b Hb) l Hp). simpl. lia.
+Qed.
+
+(* Nodes from which every path has fewer than m edges denote at level m
+   everything they denote at any level: the table after "depth" rounds is
+   complete.  The depth is found by iterating [gnext] until all nodes are good. *)
+Lemma gtab0_false id : nth id (gtab 0) false = false.
+Proof.
+  simpl. generalize st. intros s. revert id. induction s as [|a0 s IHs]; intros [|id]; simpl; auto.
+Qed.
+
+Lemma Forall2_impl_In {A B} (R S : A -> B -> Prop) l l' :
+  (forall a b, In a l -> R a b -> S a b) -> Forall2 R l l' -> Forall2 S l l'.
+Proof.
+  intros H F. induction F as [|a b l l' Hab F IH]; constructor.
+  - apply H; simpl; auto.
+  - apply IH. intros a' b' Ha'. apply H. simpl; auto.
+Qed.
+
+Lemma dstep_local (P Q : dpred) id t nd : nth_error st id = Some nd ->
+  (forall s t', In s (succs nd) -> P s t' -> Q s t') -> dstep P id t -> dstep Q id t.
+Proof.
+  intros E H. unfold dstep. rewrite E. destruct nd as [| |c a|nm c kids|n nx]; auto.
+  - intros (ts & Hf & ->). exists ts. split; auto. eapply Forall2_impl_In; [|exact Hf]. intros a b Ha. apply H. exact Ha.
+  - intros [H1|(x & -> & H1)]; [left; apply H; simpl; auto | right; exists x; split; auto; apply H; simpl; auto].
+Qed.
+
+Lemma good_levels m : forall id, nth id (gtab m) false = true ->
+  forall n t, dlevel n id t -> dlevel m id t.
+Proof.
+  induction m as [|m IH]; intros id Hg n t Hn.
+  - rewrite gtab0_false in Hg. discriminate.
+  - destruct n as [|n]; [contradiction|]. cbn [dlevel] in *.
+    destruct (nth_error st id) as [nd|] eqn:E; [|unfold dstep in Hn; rewrite E in Hn; contradiction].
+    cbn [gtab] in Hg. unfold gnext in Hg.
+    rewrite (nth_indep _ false (forallb (fun s => nth s (gtab m) false) (succs DNil))) in Hg
+      by (rewrite map_length; apply nth_error_Some; congruence).
+    rewrite (map_nth (fun nd => forallb (fun s => nth s (gtab m) false) (succs nd))) in Hg.
+    rewrite (nth_error_nth _ _ _ E) in Hg. rewrite forallb_forall in Hg.
+    eapply dstep_local; [exact E| |exact Hn].
+    intros s t' Hs Ht'. eapply IH; [apply Hg; exact Hs | exact Ht'].
+Qed.
+
+Definition all_good (gt : list bool) : bool := forallb (fun b => b) gt.
+
+Fixpoint find_depth (fuel n : nat) (gt : list bool) : option nat :=
+  if all_good gt then Some n else
+  match fuel with 0 => None | S f => find_depth f (S n) (gnext gt) end.
+
+Lemma find_depth_spec fuel : forall n m, find_depth fuel n (gtab n) = Some m -> all_good (gtab m) = true.
+Proof.
+  induction fuel as [|f IH]; intros n m H; cbn [find_depth] in H.
+  - destruct (all_good (gtab n)) eqn:E; [|discriminate]. now injection H as <-.
+  - destruct (all_good (gtab n)) eqn:E.
+    + now injection H as <-.
+    + apply (IH (S n)). exact H.
+Qed.
+
+(* [None]: the store has a cycle (no depth within |st|+1 rounds) *)
+Definition denote (root : nat) : option (list tree) :=
+  match find_depth (S (length st)) 0 (gtab 0) with
+  | Some m => Some (dget (dtab m) root)
+  | None => None
+  end.
+
+Theorem denote_spec root L : denote root = Some L -> forall t, In t L <-> denotes root t.
+Proof.
+  unfold denote. destruct (find_depth _ 0 (gtab 0)) as [m|] eqn:E; [|discriminate].
+  intros H t; injection H as <-. apply find_depth_spec in E.
+  split.
+  - intros Hm. exists m. now apply dtab_level.
+  - intros (n & Hn). apply dtab_level.
+    destruct (nth_error st root) as [nd|] eqn:Er.
+    + eapply good_levels; [|exact Hn]. unfold all_good in E. rewrite forallb_forall in E.
+      apply E. apply nth_In. assert (length (gtab m) = length st).
+      { clear. induction m; simpl; unfold gnext; now rewrite map_length. }
+      rewrite H. apply nth_error_Some. congruence.
+    + destruct n as [|n]; [contradiction|]. cbn [dlevel] in Hn. unfold dstep in Hn. rewrite Er in Hn. contradiction.
 Qed.
 
 (* every node reachable or not: all nodes are good after |st|+1 rounds *)
